@@ -232,6 +232,8 @@ func buildUniverse(shards int, thorough bool) *universe {
 		macro("lock put fails on the holder", pv, "FailNextPut(0)", "Put(L)/"+id)
 	}
 	macro("lock on every shard, epoch 1", "Put(O)", "Put(L)/"+id, "Epoch+1")
+	macro("lock arrives before the object while the future holder is read-only, then is put again", "SetMode(0,RO)", "Put(L)/"+id, "SetMode(0,RW)", "Put(O)", "Put(L)/"+id)
+	macro("locked object evacuated from its shard", "Put(O)", "Put(L)/"+id, "SetMode(0,RO)", "Evacuate(0)")
 	if len(u.ops) > 255 {
 		panic("alphabet too large for seqx")
 	}
@@ -608,11 +610,9 @@ func (s *sys) diagnose(obj *object.Object, hs []int, gerr error) (string, string
 	if !lockAnywhere {
 		fp += ":lock-object-on-no-shard"
 	}
-	t := s.tomb
-	if t == "" {
-		t = "none"
+	if t := s.tomb; t != "" && strings.Join(causes, "+") != "object-expired-on-holder(lock-missing-on-holder)" {
+		fp += ":last-tombstone-broadcast=" + t
 	}
-	fp += ":last-tombstone-broadcast=" + t
 	var others []string
 	for i := range w.Shards {
 		if !s.copies[i] {
@@ -679,7 +679,7 @@ func main() {
 	}
 	var plans []plan
 	if r.Thorough() {
-		plans = []plan{{buildUniverse(3, true), 3}, {buildUniverse(2, true), 4}}
+		plans = []plan{{buildUniverse(3, false), 3}, {buildUniverse(2, true), 4}}
 	} else {
 		plans = []plan{{buildUniverse(2, false), 3}}
 	}
@@ -698,7 +698,7 @@ func main() {
 		p := plans[len(plans)-1] // the 2-shard world
 		for _, n := range rp.Ops {
 			if strings.HasPrefix(n, "s3/") {
-				p = plan{buildUniverse(3, true), 0}
+				p = plan{buildUniverse(3, false), 0}
 			}
 		}
 		fp, what, err := seqx.Replay(mkcfg(p), rp.Ops)
